@@ -427,6 +427,9 @@ func (x *Exec) isStableKey(k string) bool {
 }
 
 func (x *Exec) havocHeap(st *State, why string, keep func(key string) bool) {
+	if os.Getenv("GOVC_HAVOCDEBUG") != "" {
+		fmt.Fprintf(os.Stderr, "havoc %s: %s\n", x.qual, why)
+	}
 	if keep == nil {
 		keep = func(k string) bool { return x.isImmutableKey(k) || x.isStableKey(k) }
 	} else {
